@@ -317,6 +317,21 @@ def graph_check(tier: str, stats: Stats) -> list[Violation]:
                         if foreign.base.fetch(body=b2) != flh2:
                             add('graph-mismatch', f"[{cfg.name}/{fname}] after {oname}: the foreign last-handled reads {foreign.base.fetch(body=b2)}, model {flh2}",
                                 config=cfg.name, op=oname.split(':')[0], what='foreign-diffbase')
+                        # the essence the operator derives from the object: no record of its own in it, every bit of user data in it
+                        try:
+                            ess = cfg.prog.clear(essence=cfg.base.build(body=b2))
+                            ess_anns = dict((ess.get('metadata') or {}).get('annotations') or {})
+                        except Exception as e:
+                            add('storage-raises', f"[{cfg.name}/{fname}] building the essence after {oname}: {type(e).__name__}: {e}", exc=type(e).__name__, idclass='essence')
+                            ess_anns = None
+                        if ess_anns is not None:
+                            user_keys = {k for k in anns(raw2) if k in anns(raw0) or k == 'user/data'}
+                            lost = sorted(k for k in user_keys if k not in ess_anns)
+                            own = sorted(k for k in ess_anns if cfg.prefix and k.startswith(cfg.prefix + '/'))
+                            if lost:
+                                add('user-data-disturbed', f"[{cfg.name}/{fname}] after {oname}: the essence drops the user's annotations {lost}", config=cfg.name, what='essence')
+                            if own:
+                                add('own-records-in-essence', f"[{cfg.name}/{fname}] after {oname}: the essence contains the operator's own records {own}", config=cfg.name)
                         if verb != 'user' and anns(raw2).get('plain') != 'v':
                             add('user-data-disturbed', f"[{cfg.name}/{fname}] after {oname}: user annotation changed", config=cfg.name)
                         st2 = (json.dumps(raw2, sort_keys=True), json.dumps(m2, sort_keys=True), json.dumps(f2, sort_keys=True),
